@@ -107,7 +107,7 @@ func (s sineSched) onSchedule(n uint64, t int64) bool {
 }
 func (s sineSched) tooFarBehind(n1 uint64, tr int64) bool {
 	h := s.H(tr)
-	return h-float64(n1) > 1+float64(n1)*(s.m+s.a)+slack(h)
+	return h-float64(n1) > 1+float64(n1)*(s.m+math.Abs(s.a))+slack(h)
 }
 func (s sineSched) hasLower() bool      { return true }
 func (s sineSched) show(t int64) string { return fmt.Sprintf("%.6f", s.H(t)) }
@@ -175,8 +175,9 @@ func scheduleOf(x *in) sched {
 		}
 	case "sine":
 		sp := newSineSched(x)
-		// the documented domain: positive period and mean, amplitude from zero up to just below the mean
-		if x.Period > 0 && x.MeanFreq > 0 && x.MeanPer > 0 && x.AmpFreq >= 0 && x.AmpPer > 0 && sp.a < sp.m &&
+		// the domain invalid() accepts and in which the schedule is increasing: positive period and mean,
+		// amplitude of either sign with a magnitude from zero up to just below the mean
+		if x.Period > 0 && x.MeanFreq > 0 && x.MeanPer > 0 && x.AmpPer > 0 && math.Abs(sp.a) < sp.m &&
 			!math.IsNaN(sp.o) && !math.IsInf(sp.o, 0) {
 			return sp
 		}
@@ -282,7 +283,7 @@ func runLoop(x *in, each func(k int, t int64, n uint64, line string)) (loopOut, 
 				if sch.tooFarBehind(n+1, tr) {
 					kind := x.Pacer + "_lower"
 					switch {
-					case x.Pacer == "sine" && ss.m+ss.a >= subNs:
+					case x.Pacer == "sine" && ss.m+math.Abs(ss.a) >= subNs:
 						kind = "sine_subnanosecond_interval"
 					case x.Pacer == "sine" && unconverged:
 						kind = "sine_unconverged_runaway"
@@ -316,7 +317,7 @@ func runLoop(x *in, each func(k int, t int64, n uint64, line string)) (loopOut, 
 			switch {
 			case x.Pacer == "const" && x.Per%x.Freq != 0:
 				kind = "const_truncated_interval_runs_ahead"
-			case x.Pacer == "sine" && ss.m+ss.a >= subNs:
+			case x.Pacer == "sine" && ss.m+math.Abs(ss.a) >= subNs:
 				kind = "sine_subnanosecond_interval"
 			case x.Pacer == "sine" && unconverged:
 				kind = "sine_unconverged_runaway"
